@@ -106,11 +106,12 @@ Section ServerProofs.
   (* C10_total *)
   Theorem step_total : forall s e, step s e <> SPanic.
   Proof.
-    intros s e. destruct e as [r lst dst d|r la lst|k| |tok rcv|tok]; cbn [Model.step]; try discriminate.
+    intros s e. destruct e as [r lst dst d|r la lst|k| |tok rcv|tok|tok rcv]; cbn [Model.step]; try discriminate.
     - destruct (get_conn s r (dgram_laddr lst dst)) as [[s1 o1] [c|]]; [|discriminate].
       destruct (peer_step (mh s1) (c_st c) (recv_trunc d)) eqn:E; [discriminate|].
       exfalso. eapply peer_total; eassumption.
     - destruct (get_conn s r _) as [[s1 o1] [c|]]; discriminate.
+    - destruct (mh_lookup (mh s) tok); discriminate.
     - destruct (mh_lookup (mh s) tok); discriminate.
   Qed.
 
@@ -349,11 +350,12 @@ Section ServerProofs.
   (* erased server outputs: connection identities are pointers, not observable by a peer *)
   Inductive esout :=
   | ENew (r : addr) | EOut (k : key) (o : eout) | EErrProcess (r : addr) | EErrGetConn (r : addr)
-  | EConn (r : addr) | EErrNewConn (r : addr) | EDiscExists.
+  | EConn (r : addr) | EErrNewConn (r : addr) | EDiscExists | EDiscSendErr.
   Definition erase_out (o : sout pout) : esout :=
     match o with
     | SNew r _ => ENew r | SOut _ k x => EOut k (erase x) | SErrProcess r _ => EErrProcess r
     | SErrGetConn r => EErrGetConn r | SConn r _ => EConn r | SErrNewConn r => EErrNewConn r | SDiscExists => EDiscExists
+    | SDiscSendErr => EDiscSendErr
     end.
   Definition for_peer (a : addr) (o : sout pout) : bool :=
     match out_peer o with Some r => addr_eqb r a | None => false end.
@@ -519,7 +521,7 @@ Section ServerProofs.
     | None => True
     end.
   Proof.
-    intros s e s' o Hw H. destruct e as [r lst dst d|r la lst|k| |tok rcv|tok]; cbn [Model.step ev_peer] in *.
+    intros s e s' o Hw H. destruct e as [r lst dst d|r la lst|k| |tok rcv|tok|tok rcv]; cbn [Model.step ev_peer] in *.
     - destruct (get_conn s r (dgram_laddr lst dst)) as [[s1 o1] res] eqn:G.
       destruct (get_conn_spec _ _ _ _ _ _ Hw G) as [Hw1 [Hm [Hp [Ho Hres]]]].
       destruct res as [c|].
@@ -543,6 +545,7 @@ Section ServerProofs.
     - injection H as <- <-. split; [|exact I]. unfold wf; cbn [Model.set_conns conns]. apply okeys_filter. assumption.
     - destruct (mh_lookup (mh s) tok); injection H as <- <-; split; auto.
     - injection H as <- <-. split; auto.
+    - destruct (mh_lookup (mh s) tok); injection H as <- <-; split; auto.
   Qed.
 
   Definition relevant (a : addr) (e : ev datagram) : bool :=
@@ -561,7 +564,7 @@ Section ServerProofs.
     rel a s1' s2' /\ eproj a o1 = eproj a o2.
   Proof.
     intros a s1 s2 e s1' o1 s2' o2 Hrel Hw1 Hw2 Hre H1 H2. unfold relevant in Hre.
-    destruct e as [r lst dst d|r la lst|k| |tok rcv|tok]; cbn [Model.step ev_peer] in *.
+    destruct e as [r lst dst d|r la lst|k| |tok rcv|tok|tok rcv]; cbn [Model.step ev_peer] in *.
     - apply addr_eqb_eq in Hre. subst r.
       destruct (get_conn s1 a (dgram_laddr lst dst)) as [[t1 p1] r1] eqn:G1.
       destruct (get_conn s2 a (dgram_laddr lst dst)) as [[t2 p2] r2] eqn:G2.
@@ -605,6 +608,10 @@ Section ServerProofs.
       + split; [cbn; congruence|assumption].
     - destruct Hrel as [Hm Hc]. injection H1 as <- <-. injection H2 as <- <-. split; [|reflexivity].
       split; [cbn; congruence|assumption].
+    - destruct Hrel as [Hm Hc]. rewrite <- Hm in H2.
+      destruct (mh_lookup (mh s1) tok); injection H1 as <- <-; injection H2 as <- <-; (split; [|reflexivity]).
+      + split; assumption.
+      + split; [cbn; congruence|assumption].
   Qed.
 
   (* C10_noninterference: whatever the other peers send, in whatever interleaving, the outputs the server
@@ -699,7 +706,7 @@ Section ServerProofs.
   Qed.
   Lemma step_inv : forall s e s' o, inv s -> step s e = SOk s' o -> inv s'.
   Proof.
-    intros s e s' o Hi H. destruct e as [r lst dst d|r la lst|k| |tok rcv|tok]; cbn [Model.step] in H.
+    intros s e s' o Hi H. destruct e as [r lst dst d|r la lst|k| |tok rcv|tok|tok rcv]; cbn [Model.step] in H.
     - destruct (get_conn s r (dgram_laddr lst dst)) as [[s1 o1] res] eqn:G. pose proof (get_conn_inv _ _ _ _ _ _ Hi G) as [Ho [Hn Hl]].
       destruct res as [c|]; [|injection H as <- _; split; auto].
       destruct (peer_step (mh s1) (c_st c) (recv_trunc d)); [|discriminate]. injection H as <- _. unfold inv. cbn [conns next_id].
@@ -714,6 +721,7 @@ Section ServerProofs.
       split; [apply okeys_filter; assumption|]. split; [apply NoDup_filter_keys; assumption|]. apply ids_lt_filter. assumption.
     - destruct (mh_lookup (mh s) tok); injection H as <- _; assumption.
     - injection H as <- _. assumption.
+    - destruct (mh_lookup (mh s) tok); injection H as <- _; assumption.
   Qed.
 
   (* C10_one_conn_per_key *)
@@ -808,6 +816,77 @@ Section ServerProofs.
     - injection H as <- <-. apply in_app_or in Hin as [Hin|Hin]; [contradiction|].
       cbn in Hin. destruct Hin as [Hin|[]]. discriminate.
   Qed.
+
+  (* ----- the discovery table holds exactly the requests in progress -----
+     [in_progress] is written from the call structure alone: a DiscoveryRequest holds its token from its
+     (successful) LoadOrStore to its return.  A call that returns at once -- the token is taken, or the
+     datagram cannot be sent (EDiscFail) -- holds nothing afterwards. *)
+  Fixpoint in_progress (reg : mhtab) (evs : list (ev datagram)) : mhtab :=
+    match evs with
+    | [] => reg
+    | EDiscStart tok rcv :: r =>
+        in_progress (match mh_lookup reg tok with Some _ => reg | None => (tok, rcv) :: reg end) r
+    | EDiscEnd tok :: r => in_progress (mh_remove reg tok) r
+    | _ :: r => in_progress reg r
+    end.
+
+  Lemma bytes_eqb_same : forall t : list Z, bytes_eqb t t = true.
+  Proof. induction t as [|b r IH]; cbn; [reflexivity|]. rewrite Z.eqb_refl. exact IH. Qed.
+  Lemma mh_remove_absent : forall t tok, mh_lookup t tok = None -> mh_remove t tok = t.
+  Proof.
+    induction t as [|[k r] rest IH]; intros tok H; cbn in *; [reflexivity|].
+    destruct (bytes_eqb k tok); [discriminate|]. rewrite IH by assumption. reflexivity.
+  Qed.
+  Lemma mh_remove_just_added : forall t tok rcv, mh_lookup t tok = None -> mh_remove ((tok, rcv) :: t) tok = t.
+  Proof. intros t tok rcv H. cbn [mh_remove]. rewrite bytes_eqb_same. apply mh_remove_absent. assumption. Qed.
+
+  (* a request whose datagram cannot be sent leaves NO trace: the state after the call is the state before it *)
+  Theorem disc_failed_send_no_trace : forall s tok rcv,
+    step s (EDiscFail tok rcv) = SOk s (match mh_lookup (mh s) tok with Some _ => [SDiscExists] | None => [SDiscSendErr] end).
+  Proof.
+    intros s tok rcv. cbn [Model.step]. destruct (mh_lookup (mh s) tok) eqn:E; [reflexivity|].
+    rewrite mh_remove_just_added by assumption. destruct s; reflexivity.
+  Qed.
+
+  (* ... so whatever follows it is what would have happened without it (outputs of the call itself aside):
+     a message with its token goes where it went before, the same request can be started again *)
+  Theorem disc_failed_send_invisible : forall s tok rcv evs,
+    run s (EDiscFail tok rcv :: evs) =
+    match run s evs with
+    | Some (s', o) => Some (s', (match mh_lookup (mh s) tok with Some _ => [SDiscExists] | None => [SDiscSendErr] end) ++ o)
+    | None => None
+    end.
+  Proof. intros s tok rcv evs. cbn [Model.run]. rewrite disc_failed_send_no_trace. reflexivity. Qed.
+
+  Theorem disc_retry_after_failed_send : forall s tok rcv rcv', mh_lookup (mh s) tok = None ->
+    exists s', run s [EDiscFail tok rcv; EDiscStart tok rcv'] = Some (s', [SDiscSendErr]) /\ mh s' = (tok, rcv') :: mh s.
+  Proof.
+    intros s tok rcv rcv' H. rewrite disc_failed_send_invisible. cbn [Model.run Model.step]. rewrite H.
+    eexists. split; reflexivity.
+  Qed.
+
+  (* at every point of every history the table is exactly the set of requests in progress *)
+  Theorem disc_table_in_progress : forall evs s s' o, wf s -> run s evs = Some (s', o) -> mh s' = in_progress (mh s) evs.
+  Proof.
+    induction evs as [|e r IH]; intros s s' o Hw H; cbn [Model.run] in H.
+    - injection H as <- _. reflexivity.
+    - destruct (step s e) as [s1 o1|] eqn:E; [|discriminate].
+      destruct (run s1 r) as [[s2 o2]|] eqn:R; [|discriminate]. injection H as <- _.
+      destruct (step_spec _ _ _ _ Hw E) as [Hw1 Hsp].
+      rewrite (IH _ _ _ Hw1 R).
+      destruct e as [ra lst dst d|ra la lst|k| |tok rcv|tok|tok rcv]; cbn [ev_peer] in Hsp; cbn [in_progress].
+      + destruct Hsp as [-> _]. reflexivity.
+      + destruct Hsp as [-> _]. reflexivity.
+      + destruct Hsp as [-> _]. reflexivity.
+      + cbn [Model.step] in E. injection E as <- _. reflexivity.
+      + cbn [Model.step] in E. destruct (mh_lookup (mh s) tok); injection E as <- _; reflexivity.
+      + cbn [Model.step] in E. injection E as <- _. reflexivity.
+      + rewrite disc_failed_send_no_trace in E. injection E as <- _. reflexivity.
+  Qed.
+
+  Corollary disc_table_in_progress_init : forall evs g s o, run (init_state g) evs = Some (s, o) -> mh s = in_progress [] evs.
+  Proof. intros evs g s o H. apply (disc_table_in_progress evs (init_state g) s o); [constructor|exact H]. Qed.
+
 End ServerProofs.
 
 (* ---------- the concrete connection (cstep) satisfies the hypotheses ---------- *)
